@@ -1,6 +1,7 @@
 package props
 
 import (
+	"reflect"
 	"bytes"
 	"fmt"
 	"strings"
@@ -364,6 +365,38 @@ func runC07(c *core.Ctx) {
 			cs.Check(err != nil, "foreign/"+T.String()+"-accepts/"+U.name, func() core.W {
 				return core.W{"decoder": T.String(), "foreign_class": U.name, "input_hex": mon.Hex(in, 200)}
 			}, kfs...)
+			if i%4 == 1 && len(in) >= 4 {
+				// the same foreign frame into a receiver that is not fresh: one that decoded a genuine T
+				// before, and/or whose exported Header field (where the type has one) already equals
+				// the foreign frame's header — what the receiver holds must not stand in for a check
+				rcv := gen.New(T)
+				how := ""
+				if r.Bool() {
+					if e, eerr := ref.Encode(gen.Packet(r, T, gen.Opts{Small: true, NoBig: true}), ref.Lib); eerr == nil {
+						core.Guard(func() { _ = rcv.Unmarshal(cloneBytes(e.B)) })
+						how = "used "
+					}
+				}
+				if f := reflect.ValueOf(rcv).Elem(); f.Kind() == reflect.Struct {
+					if hf := f.FieldByName("Header"); hf.IsValid() && hf.CanSet() && hf.Type() == reflect.TypeOf(rtcp.Header{}) {
+						hf.Set(reflect.ValueOf(rtcp.Header{Padding: in[0]&0x20 != 0, Count: in[0] & 0x1F, Type: rtcp.PacketType(in[1]), Length: uint16(in[2])<<8 | uint16(in[3])}))
+						how += "header-preset"
+					}
+				}
+				if how != "" {
+					var perr error
+					ppan, pv, pst := core.Guard(func() { perr = rcv.Unmarshal(cloneBytes(in)) })
+					cs.Eval(1)
+					cs.Count("foreign-prepared-receiver/" + T.String())
+					if ppan {
+						cs.Fail("panic/Unmarshal", core.W{"decoder": T.String(), "receiver": how, "input_hex": mon.Hex(in, 200), "panic": pv, "stack": pst})
+						return
+					}
+					cs.Check(perr != nil, "foreign/"+T.String()+"-accepts/"+U.name, func() core.W {
+						return core.W{"decoder": T.String(), "foreign_class": U.name, "receiver": how, "input_hex": mon.Hex(in, 200)}
+					}, kfs...)
+				}
+			}
 		}
 		if cs.Idx < nT*nU {
 			cs.Sample("foreign-pair", func() any { return map[string]any{"decoder": T.String(), "foreign": U.name} })
